@@ -82,7 +82,10 @@ Inductive body :=
 | ZDecomp (w : list Z) (A B C : mat Z) (Ps : list (mat Z)) (Ls : list (option (mat Z))) (expected : res (list (mat Z)))
 | QFromCP (Qm Rm : mat Q) (w : list Q) (A B C : mat Q) (expected : list Q * list (mat Q) * list (mat Q))
 | QCompress (slices : list (mat Q)) (thr : Q) (max_rank : option nat) (tapes : list (mat Q * list Q * mat Q))
-            (full : list bool) (expected : list (mat Q * option (mat Q))).
+            (full : list bool) (expected : list (mat Q * option (mat Q)))
+| ZModeDotApi (is_class copy : bool) (w : option (list Z)) (fs : list (mat Z)) (x : operand (F:=Z)) (mode : nat) (keep_dim : bool)
+              (expected : res (list Z * list (mat Z)))
+| ZFlipApi (is_class : bool) (w : option (list Z)) (fs : list (mat Z)) (mode : nat) (expected : res (list Z * list (mat Z))).
 
 Definition agree_body (b : body) : bool :=
   match b with
@@ -115,6 +118,8 @@ Definition agree_body (b : body) : bool :=
        qv_close w' ew && list_eqb qmat_close fs' efs && list_eqb qmat_close ps' eps)
   | QCompress slices thr mr tapes full e =>
       svds_okb full slices tapes && list_eqb recon_close (svd_compress Qops slices thr mr tapes) e
+  | ZModeDotApi cl cp w fs x m kd e => res_eqb zcp_dense_eqb (cp_mode_dot_api Zops cl cp w fs x m kd) e
+  | ZFlipApi cl w fs m e => res_eqb zcp_eqb (cp_flip_sign_api Zops cl (col_sum Zops) w fs m) e
   end.
 
 Definition case := (nat * body)%type.
